@@ -236,7 +236,9 @@ def strategy(tier):
 
     @st.composite
     def case(draw):
-        spec = draw(model_spec(profile(styles=['dense', 'sparse', 'sparse'], assembled=False, max_comps=4, p_feedback=0.25,
+        # (mild unit factors only: with factors like h -> ms the tanh' terms are evaluated at arguments of 1e6-1e7, where
+        # the round-off of the conversion itself changes the exact jacobian entries by up to 1e-9 relative)
+        spec = draw(model_spec(profile(styles=['dense', 'sparse', 'sparse'], assembled=False, max_comps=4, p_feedback=0.25, wild_units=False,
                                        cyc_nl=['newton'], cyc_ln=['direct'], p_neg_index=0.2)))
         sv = st.lists(st.integers(-8, 8), min_size=3, max_size=9)
         hist = draw(st.lists(st.fixed_dictionaries({'setx': st.booleans(), 'x': sv, 'cs': st.booleans()}), min_size=1, max_size=4))
